@@ -440,6 +440,10 @@ func c06Case(c *Ctx) error {
 			default:
 				msg, ev := cw.swUserDone("tt", id, key)
 				record("swap", fmt.Sprintf("USwap (SUserDone %d %d)", cw.idN(id), swKeyN(key)), msg, ev)
+				if msg == "" {
+					msg, ev = cw.swUserDone("tt", id, key)
+					record("swap", fmt.Sprintf("USwap (SUserDone %d %d)", cw.idN(id), swKeyN(key)), msg, ev)
+				}
 			}
 		case r < 92: // multi-swaps
 			id := swIDs[rng.Intn(len(swIDs))]
@@ -509,6 +513,10 @@ func c06Case(c *Ctx) error {
 			default:
 				msg, ev := cw.msUserDone("tt", id, key)
 				record("mswap", fmt.Sprintf("UMSwap (MUserDone %d %d)", cw.idN(id), swKeyN(key)), msg, ev)
+				if msg == "" { // the key is public now: a second completion must find nothing
+					msg, ev = cw.msUserDone("tt", id, key)
+					record("mswap", fmt.Sprintf("UMSwap (MUserDone %d %d)", cw.idN(id), swKeyN(key)), msg, ev)
+				}
 			}
 		default: // forced transfer by the admin
 			from, to := pick(), pick()
